@@ -1,6 +1,7 @@
 package vh
 
 import (
+	"sync"
 	"bufio"
 	"context"
 	"encoding/json"
@@ -30,6 +31,7 @@ type DispScenario struct {
 		Wret  string            `json:"wret"`
 		Mtype string            `json:"mtype"`
 		Pre   string            `json:"pre"`
+		Res   string            `json:"res"`
 	} `json:"cfg"`
 	Hooks   [][]string `json:"hooks"`
 	Chooks  [][]string `json:"chooks"`
@@ -40,6 +42,8 @@ type DispScenario struct {
 	Disc    bool       `json:"disc"`
 	Written bool       `json:"written"`
 }
+
+var dispSmallPool sync.Once
 
 func drvDisp(args []string) int {
 	fs := flag.NewFlagSet("disp", flag.ExitOnError)
@@ -102,7 +106,7 @@ func runDisp(rec *Rec, sc *DispScenario, n int) {
 	c := sc.Cfg
 	rec.SetTrace(sc.ID, map[string]interface{}{
 		"mode": "disp", "kind": c.Kind, "route": c.Route, "hout": c.Hout, "dec": c.Dec, "rdec": c.Rdec,
-		"vetopl": c.Veto[0], "vetostage": c.Veto[1], "vkind": c.Vkind, "wret": c.Wret, "mtype": c.Mtype, "pre": c.Pre,
+		"vetopl": c.Veto[0], "vetostage": c.Veto[1], "vkind": c.Vkind, "wret": c.Wret, "mtype": c.Mtype, "pre": c.Pre, "res": c.Res,
 		"exphooks": flat(sc.Hooks), "expchooks": flat(sc.Chooks),
 		"expinvoked": sc.Invoked, "expreplies": sc.Replies, "expcstat": sc.Cstat, "expdisc": sc.Disc, "expwritten": sc.Written,
 	})
@@ -122,7 +126,11 @@ func runDisp(rec *Rec, sc *DispScenario, n int) {
 		}
 		return pl
 	}
-	srv := erpc.NewPeer(erpc.PeerConfig{}, mk("L"), srvDisc)
+	srvCfg := erpc.PeerConfig{}
+	if c.Res == "ageshort" {
+		srvCfg.DefaultContextAge = 15 * time.Millisecond
+	}
+	srv := erpc.NewPeer(srvCfg, mk("L"), srvDisc)
 	srv.PluginContainer().AppendRight(mk("R"))
 	g := srv.SubRoute("/g", mk("G"))
 	h := mk("H")
@@ -169,11 +177,32 @@ func runDisp(rec *Rec, sc *DispScenario, n int) {
 		return
 	}
 	tag := sc.ID
+	freePool := func() {}
+	var delay time.Duration
+	if c.Res == "ageshort" {
+		// the serving session's handling contexts live 15 ms (peer configuration), the handler takes 45 ms
+		delay = 45 * time.Millisecond
+	}
 	switch c.Hout {
 	case "status":
-		app.SetBehav(tag, &Behav{Outcome: "status", Code: 1001, Msg: "hmsg", Cause: "hcause"})
+		app.SetBehav(tag, &Behav{Outcome: "status", Code: 1001, Msg: "hmsg", Cause: "hcause", Delay: delay})
 	case "panic":
-		app.SetBehav(tag, &Behav{Outcome: "panic"})
+		app.SetBehav(tag, &Behav{Outcome: "panic", Delay: delay})
+	default:
+		if delay > 0 {
+			app.SetBehav(tag, &Behav{Delay: delay})
+		}
+	}
+	if c.Res == "poolfull" {
+		// a small goroutine pool for the process (from here to the end of the run: these scenarios come last), and every
+		// slot the two read loops leave is taken until the exchange is over
+		dispSmallPool.Do(func() { erpc.SetGopool(8, time.Minute) })
+		release := make(chan struct{})
+		var once sync.Once
+		freePool = func() { once.Do(func() { close(release) }) }
+		defer freePool()
+		for erpc.Go(func() { <-release }) {
+		}
 	}
 	method := "/g/t/call"
 	if c.Kind == "push" {
@@ -298,6 +327,7 @@ func runDisp(rec *Rec, sc *DispScenario, n int) {
 	}
 	// hooks that run after the caller has its answer (post-write stages on the server) are complete once a
 	// graceful close of both peers has returned: it waits for every running handler context
+	freePool()
 	cd := make(chan struct{})
 	go func() { srv.Close(); cli.Close(); close(cd) }() // the server first: its sessions are still indexed, so Close waits for their handlers
 	select {
